@@ -6,6 +6,7 @@
 package main
 
 import (
+	"context"
 	"encoding/json"
 	"fmt"
 	"math/rand"
@@ -143,10 +144,21 @@ var baseRoutes = []route{
 var extraRoutes = []route{
 	{"/b/:x/:y", "GET", 205, false},
 	{"/c/:x/:y/:z", "GET", 0, false},
+	// a jump: far more parameters than any route had when the pooled Stores were made
+	{"/j/:a/:b/:c/:d/:e/:f/:g/:h/:i/:j/:k/:l/:x/:y", "GET", 210, false},
 	{"/d/:a/:x/:y/:z", "GET", 206, false},
 	{"/e/:a/:b/:x/:y/*", "GET", 207, false},
 	{"/f/:a/:b/:c/:x/:y/:z", "GET", 0, false},
 	{"/g/:a/:b/:c/:x/:y/:z/*", "GET", 208, false},
+	{"/k" + strings.Repeat("/:p", 0) + manyParams(40) + "/:x/:y/*", "GET", 211, false},
+}
+
+func manyParams(n int) string {
+	var sb strings.Builder
+	for i := 0; i < n; i++ {
+		fmt.Fprintf(&sb, "/:q%d", i)
+	}
+	return sb.String()
 }
 
 func newMux(extra int) *httpd.Mux {
@@ -162,30 +174,41 @@ func newMux(extra int) *httpd.Mux {
 	return mux
 }
 
-type req struct{ m, p string }
+type req struct {
+	m, p string
+	cx   bool // the request's context has already been cancelled when it is served (a client that went away)
+}
+
+var cancelledCtx = func() context.Context {
+	c, cancel := context.WithCancel(context.Background())
+	cancel()
+	return c
+}()
 
 // request of op at step k with `extra` routes registered
 func opRequest(op string, k, extra int) req {
 	switch op {
 	case "m0":
-		return req{"GET", "/s"}
+		return req{"GET", "/s", false}
+	case "cx":
+		return req{"GET", fmt.Sprintf("/a/c%d", k), true}
 	case "mr":
-		return req{"GET", "/"}
+		return req{"GET", "/", false}
 	case "m1":
-		return req{"GET", fmt.Sprintf("/a/v%d", k)}
+		return req{"GET", fmt.Sprintf("/a/v%d", k), false}
 	case "m2":
-		return req{"GET", fmt.Sprintf("/u/p%d/q%d", k, k)}
+		return req{"GET", fmt.Sprintf("/u/p%d/q%d", k, k), false}
 	case "ma":
-		return req{"PUT", fmt.Sprintf("/w/r/s/t%d", k)}
+		return req{"PUT", fmt.Sprintf("/w/r/s/t%d", k), false}
 	case "un":
-		return req{"GET", fmt.Sprintf("/zzz/%d", k)}
+		return req{"GET", fmt.Sprintf("/zzz/%d", k), false}
 	case "pm": // captures two values, then fails at the method node
-		return req{"POST", fmt.Sprintf("/u/P%d/Q%d", k, k)}
+		return req{"POST", fmt.Sprintf("/u/P%d/Q%d", k, k), false}
 	case "pn":
-		return req{"GET", fmt.Sprintf("/p/boom%d", k)}
+		return req{"GET", fmt.Sprintf("/p/boom%d", k), false}
 	case "sr":
 		if extra == 0 {
-			return req{"GET", fmt.Sprintf("/b/n%d/m%d", k, k)} // not registered yet
+			return req{"GET", fmt.Sprintf("/b/n%d/m%d", k, k), false} // not registered yet
 		}
 		pat := extraRoutes[extra-1].p
 		parts := strings.Split(pat, "/")
@@ -196,12 +219,12 @@ func opRequest(op string, k, extra int) req {
 				parts[i] = fmt.Sprintf("rest/of%d/", k)
 			}
 		}
-		return req{"GET", strings.Join(parts, "/")}
+		return req{"GET", strings.Join(parts, "/"), false}
 	}
 	panic("unknown op " + op)
 }
 
-var alphabet = []string{"m0", "mr", "m1", "m2", "ma", "un", "pm", "pn", "rg", "sr"}
+var alphabet = []string{"m0", "mr", "m1", "m2", "ma", "un", "pm", "pn", "rg", "sr", "cx"}
 
 type Case struct {
 	Ops []string `json:"ops,omitempty"`
@@ -221,6 +244,9 @@ func serve(mux *httpd.Mux, w *recWriter, hr *http.Request, rq req) (o obs, escap
 	w.h = http.Header{}
 	o.hdr = w.h
 	hr.Method, hr.URL.Path = rq.m, rq.p
+	if rq.cx {
+		hr = hr.WithContext(cancelledCtx) // shallow copy: same URL and Header
+	}
 	func() {
 		defer func() { escaped = recover() }()
 		mux.ServeHTTP(w, hr)
@@ -317,7 +343,7 @@ func runConc(cs Case, st *stats) (key, expected, observed string) {
 	}
 	r0 := rand.New(rand.NewSource(cs.Seed))
 	var kinds []plan
-	ops := []string{"m0", "mr", "m1", "m2", "ma", "un", "pm", "pn", "sr"}
+	ops := []string{"m0", "mr", "m1", "m2", "ma", "un", "pm", "pn", "sr", "cx"}
 	fw := &recWriter{h: http.Header{}}
 	fr := &http.Request{URL: &url.URL{}, Header: http.Header{}}
 	for i := 0; i < 64; i++ {
